@@ -46,6 +46,31 @@ theorem foldInsert_get_congr [Add K] [Mul K] (fs : List (Fld K)) (out out' : Arr
     exact ih _ _ (by rw [insertArr_s0, insertArr_s0, h0]) (by rw [insertArr_s1, insertArr_s1, h1])
       (insertArr_get_congr f out out' w i j h0 h1 h)
 
+theorem hasTilt_cons (a : Int) (l : List Int) :
+    Gen.hasTilt (a :: l) = (if (decide (a ≠ (0 : Int))) then true else Gen.hasTilt l) := rfl
+
+theorem hasTilt_true_of_mem (ntilt : List Int) (n : Int) (hn : n ∈ ntilt) (hpos : n ≠ 0) : Gen.hasTilt ntilt = true := by
+  induction ntilt with
+  | nil => cases hn
+  | cons a l ih =>
+    rw [hasTilt_cons]
+    by_cases ha : a ≠ 0
+    · rw [decide_eq_true ha]; rfl
+    · have hmem : n ∈ l := by
+        rcases List.mem_cons.mp hn with h | h
+        · exact absurd (h ▸ hpos) ha
+        · exact h
+      rw [decide_eq_false ha]; exact ih hmem
+
+theorem hasTilt_false_of_all_zero (ntilt : List Int) (h : ∀ n ∈ ntilt, n = 0) : Gen.hasTilt ntilt = false := by
+  induction ntilt with
+  | nil => rfl
+  | cons a l ih =>
+    rw [hasTilt_cons]
+    have ha : ¬ (a ≠ 0) := by simp [h a List.mem_cons_self]
+    rw [decide_eq_false ha]
+    exact ih (fun n hn => h n (List.mem_cons_of_mem _ hn))
+
 theorem inRegion_iff (r : (Int × Int) × (Int × Int)) (i j : Int) :
     inRegion r i j = true ↔ r.1.1 ≤ i ∧ i < r.1.2 ∧ r.2.1 ≤ j ∧ j < r.2.2 := by
   unfold inRegion; simp only [Bool.and_eq_true, decide_eq_true_eq]; omega
@@ -57,7 +82,7 @@ theorem zeroedCorner_get [Zero K] (scr : Arr K) (S0 S1 i j : Int) (hi : 0 ≤ i 
     rw [inRegion_iff]; simp only [Gen.scratchZero]; omega
   simp only [zeroedCorner, h, if_true]
 
-theorem emod_range (x n : Int) (hn : 0 < n) : 0 ≤ x % n ∧ x % n < n :=
+theorem emod_rangeB (x n : Int) (hn : 0 < n) : 0 ≤ x % n ∧ x % n < n :=
   ⟨Int.emod_nonneg x (by omega), Int.emod_lt_of_pos x hn⟩
 
 end Lentil
